@@ -135,6 +135,14 @@ fn real_main() {
             let t = std::time::Instant::now();
             let u = poly::universe(tier);
             println!("{} polymorphic programs ({:.1}s)", u.len(), t.elapsed().as_secs_f64());
+            let t = std::time::Instant::now();
+            let o = poly::universe_omega(tier);
+            println!("of which {} F-omega programs ({:.1}s)", o.len(), t.elapsed().as_secs_f64());
+            let bad = o.iter().filter(|p| poly::synth_c(&poly::Scope::default(), p).is_err()).count();
+            println!("reference checker rejects {} of them", bad);
+            for p in o.iter().rev().step_by(o.len().max(1) / 4 + 1).take(4) {
+                println!("{}", poly::program(p, false));
+            }
             let muts: usize = u.iter().take(200).map(|p| poly::mutants(p).len()).sum();
             println!("mutants of the first 200: {}", muts);
             for n in 2..=7 {
